@@ -71,6 +71,31 @@ fn check_definite(d: &MDesc, lib: &glue::Desc, rep: &mut Report) -> Result<(), F
         (Ok(s), None) => return fail(&format!("script-code/{}", kind), format!("tr has script_code {}", s.to_hex_string())),
         (Err(e), Some(_)) => return fail(&format!("script-code/{}", kind), format!("script_code errs: {}", e)),
     }
+    // the same figures through the per-type accessors
+    {
+        use miniscript::Descriptor as D;
+        let (inner, code, tspk): (Option<ScriptBuf>, Option<ScriptBuf>, ScriptBuf) = match lib {
+            D::Bare(x) => (Some(x.inner_script()), Some(x.ecdsa_sighash_script_code()), x.script_pubkey()),
+            D::Pkh(x) => (None, Some(x.ecdsa_sighash_script_code()), x.script_pubkey()),
+            D::Wpkh(x) => (None, Some(x.ecdsa_sighash_script_code()), x.script_pubkey()),
+            D::Sh(x) => (Some(x.inner_script()), Some(x.ecdsa_sighash_script_code()), x.script_pubkey()),
+            D::Wsh(x) => (Some(x.inner_script()), Some(x.ecdsa_sighash_script_code()), x.script_pubkey()),
+            D::Tr(x) => (None, None, x.script_pubkey()),
+        };
+        if tspk.as_bytes() != &sc.spk[..] {
+            return fail(&format!("typed-spk/{}", kind), format!("<type>::script_pubkey {} != {}", tspk.to_hex_string(), keys::hex(&sc.spk)));
+        }
+        if let (Some(i), Some(w)) = (&inner, &want_explicit) {
+            if i.as_bytes() != &w[..] {
+                return fail(&format!("inner-script/{}", kind), format!("<type>::inner_script {} != {}", i.to_hex_string(), keys::hex(w)));
+            }
+        }
+        if let (Some(c), Some(w)) = (&code, &want_code) {
+            if c.as_bytes() != &w[..] {
+                return fail(&format!("typed-script-code/{}", kind), format!("<type>::ecdsa_sighash_script_code {} != {}", c.to_hex_string(), keys::hex(w)));
+            }
+        }
+    }
     // addresses on every network
     for net in NETS {
         let reference = Address::from_script(&ScriptBuf::from_bytes(sc.spk.clone()), net);
@@ -157,7 +182,7 @@ fn instantiate(t: &str, alt: usize, index: Option<u32>) -> String {
 impl Check for C16 {
     fn id(&self) -> &'static str { "C16" }
     fn rule(&self) -> String {
-        "lane `definite`: descriptors of every output type (hex keys in every legal form, definite xpub keys with/without origin): script_pubkey == own standard template over the independently encoded explicit script; explicit_script, unsigned_script_sig, script_code per BIP16/143 tables; address(net) == rust-bitcoin Address::from_script on 4 networks and pays to the spk; sortedmulti: a random permutation of the keys gives the same spk. lane `derive`: the same descriptors with xpub keys turned into wildcard templates: derive_at_index / at_derivation_index / derived_descriptor / find_derivation_index_for_spk agree with `substitute the index in the text, parse, own BIP32 CKDpub`; index >= 2^31 and hardened wildcards are errors. lane `multipath`: templates with <a;b;..> steps (2-4 alternatives, repeats allowed): into_single_descriptors()[j] == parse(text with the j-th alternative), mismatched lengths are errors. Non-trivial = descriptor with a derived key or a wrapped output type; distinct by (text, index).".into()
+        "lane `definite`: descriptors of every output type (hex keys in every legal form, definite xpub keys with/without origin): script_pubkey == own standard template over the independently encoded explicit script; explicit_script, unsigned_script_sig, script_code per BIP16/143 tables, and the per-type accessors (Bare/Pkh/Wpkh/Sh/Wsh/Tr ::script_pubkey, inner_script, ecdsa_sighash_script_code) give the same bytes; address(net) == rust-bitcoin Address::from_script on 4 networks and pays to the spk; sortedmulti: a random permutation of the keys gives the same spk. lane `derive`: the same descriptors with xpub keys turned into wildcard templates: derive_at_index / at_derivation_index / derived_descriptor / find_derivation_index_for_spk agree with `substitute the index in the text, parse, own BIP32 CKDpub`; index >= 2^31 and hardened wildcards are errors. lane `multipath`: templates with <a;b;..> steps (2-4 alternatives, repeats allowed): into_single_descriptors()[j] == parse(text with the j-th alternative), mismatched lengths are errors. Non-trivial = descriptor with a derived key or a wrapped output type; distinct by (text, index).".into()
     }
     fn lanes(&self, tier: Tier) -> Vec<(&'static str, usize, usize)> {
         match tier {
